@@ -200,7 +200,8 @@ def _key(meta, clause):
         return dict(fn="solve_equilibrium", clause=clause, cls=meta["cls"])
     if clause == "sane-flag":
         return dict(fn="EqSystem._result_is_sane", clause=clause, chain=meta["chain"])
-    return dict(fn="EqSystem." + meta["chain"].split("-")[0], clause=clause, chain=meta["chain"], cls=meta["cls"])
+    return dict(fn="EqSystem." + meta["chain"].split("-")[0], clause=clause, chain=meta["chain"], cls=meta["cls"],
+                rids=meta["rids"])
 
 
 def _judge(ctx, items, cfg="EqSolveTrace.cfg"):
